@@ -67,6 +67,28 @@ theorem set_ops_tie (a b : NatSet) :
     natSetDomain.union a b = Generated.txnTypeUnion a b ∧ natSetDomain.inter a b = Generated.txnTypeInter a b :=
   ⟨rfl, rfl, rfl, rfl⟩
 
+/-- the address a comparison operand denotes: the model's `assertedAddress` is the function translated on this run from
+    AddrFields._get_asserted_address (instruction classes mapped to the model's constructors) -/
+theorem addr_asserted_tie (op : Op) (text : String) : assertedAddress op text = Generated.addrAsserted op text := by
+  unfold assertedAddress Generated.addrAsserted
+  by_cases h1 : op = .global "ZeroAddress"
+  · subst h1; simp [addrNull, OSet.ofList, OSet.insert, Generated.NO_ADDRESS, NO_ADDRESS]
+  · have h1' : (op == Op.global "ZeroAddress") = false := by simpa using h1
+    simp only [h1']
+    cases op with
+    | addr a =>
+      by_cases ha : a = ZERO_ADDRESS
+      · subst ha; simp [addrNull, OSet.ofList, OSet.insert, Generated.NO_ADDRESS, NO_ADDRESS, Generated.ZERO_ADDRESS, ZERO_ADDRESS]
+      · have : (a == Generated.ZERO_ADDRESS) = false := by simpa [Generated.ZERO_ADDRESS, ZERO_ADDRESS] using ha
+        have h2 : (a == ZERO_ADDRESS) = false := by simpa using ha
+        simp [this, h2, OSet.ofList, OSet.insert]
+    | global f =>
+      by_cases hf : f = "CreatorAddress"
+      · subst hf; simp [OSet.ofList, OSet.insert, Generated.CREATOR_ADDRESS, CREATOR_ADDRESS]
+      · have hz : ¬ f = "ZeroAddress" := by intro e; subst e; exact h1 rfl
+        simp [hf, hz, OSet.ofList, OSet.insert, Generated.SOME_ADDRESS, SOME_ADDRESS]
+    | _ => simp [OSet.ofList, OSet.insert, Generated.SOME_ADDRESS, SOME_ADDRESS]
+
 theorem consts_tie :
     Generated.MAX_TRANSACTION_COST = MAX_TRANSACTION_COST ∧ Generated.MAX_UINT64 = MAX_UINT64 ∧
     Generated.MAX_GROUP_SIZE = MAX_GROUP_SIZE ∧ Generated.ZERO_ADDRESS = ZERO_ADDRESS ∧
